@@ -11,6 +11,8 @@ import CG.VerilogTables
 import CG.Spec
 import CG.Props.C06
 import CG.Proofs.VRound
+import CG.Props.C02
+import CG.Proofs.VRoundBeh
 namespace CG.C03
 open Verilog
 
@@ -95,6 +97,24 @@ theorem dispatch_table :
     dispatch "bench" ".txt" = some "bench" ∧ dispatch "" ".txt" = none := by
   decide
 
+/-! ### behavioural (assign) style -/
+
+/-- **C03 (assign style, blackbox-free circuits).** reading back the behavioural text of a writable blackbox-free
+    circuit without `x` constants whose node names do not look like the reader's synthetic gate names (their capture is
+    known finding K29) gives a circuit with the same name, inputs and outputs that computes the same function on every
+    original node: every consistent valuation of the result restricts to one of the original and every consistent
+    valuation of the original extends — for every emission order and every reader order, any gate mix and arity
+    (one-input and/or/xor become buffers, nand/nor/xnor inverters), cyclic circuits included -/
+theorem roundtrip_behavioral (c : Circuit) (ord ord' : Ord) (hord : OrdOK ord) (hord' : OrdOK ord') (hc : Writable c)
+    (hnobb : c.bbs = []) (hnx : ∀ p ∈ c.nodes, p.2.ty ≠ some "x")
+    (hns : ∀ p ∈ c.nodes, ¬ C02.SyntheticLike p.1) :
+    ∃ wm c', toWModule c true ord = .ok wm ∧ transform wm.toModule [] ord' = .ok c' ∧
+      c'.name = c.name ∧ (∀ x, x ∈ c'.inputs ↔ x ∈ c.inputs) ∧ (∀ x, x ∈ c'.outputs ↔ x ∈ c.outputs) ∧
+      (∀ v', Consistent c' v' → Consistent c v') ∧
+      (∀ v, Consistent c v → ∃ v', Consistent c' v' ∧ ∀ n, c.has n = true → v' n = v n) := by
+  exact VB.roundtrip c ord ord' hord hord' hc.wr hnobb hnx
+    (fun p hp h => hns p hp (Or.inr (Or.inr (Or.inr h))))
+
 /-! non-vacuity: a circuit with a flop whose clock pin is unconnected -/
 def ex : Circuit :=
   { name := "top",
@@ -109,6 +129,90 @@ example : ((toWModule ex false id).toOption.map (fun wm => render wm)) =
   decide +kernel
 example : ((toWModule ex false id).toOption.bind (fun wm => (transform wm.toModule (bbDefs ex) id).toOption)).map
     (fun c' => decide (c'.edges.length = ex.edges.length ∧ c'.nodes.length = ex.nodes.length)) = some true := by
+  decide +kernel
+
+/-- a `Writable` circuit exists (the hypotheses of the round-trip theorems are satisfiable): `ex` with its clock driven -/
+def exW : Circuit :=
+  { name := "top",
+    nodes := [("a", { ty := some "input", out := some false }), ("b", { ty := some "input", out := some false }),
+              ("g", { ty := some "nand", out := some false }), ("q", { ty := some "buf", out := some true }),
+              ("u.clk", { ty := some "bb_input", out := some false }), ("u.d", { ty := some "bb_input", out := some false }),
+              ("u.q", { ty := some "bb_output", out := some false })],
+    edges := [("a", "g"), ("b", "g"), ("g", "u.d"), ("a", "u.clk"), ("u.q", "q")],
+    bbs := [("u", { name := "ff", ins := ["clk", "d"], outs := ["q"] })] }
+example : Writable exW := by
+  have hbb : exW.bbs = [("u", { name := "ff", ins := ["clk", "d"], outs := ["q"] })] := rfl
+  have pn : ∀ n : Name, (n ≠ "" ∧ Circuit.isDigit0 n = false ∧ ¬ n.toList.contains '.' ∧ n.toList.head? ≠ some '\\' ∧
+      n ≠ "tie_0" ∧ n ≠ "tie_1" ∧ n ≠ "tie_x") → PlainName n := by
+    intro n h
+    refine ⟨h.1, h.2.1, h.2.2.1, ?_, h.2.2.2.2⟩
+    rw [VR.startsWith_bs_iff]
+    rintro ⟨l, hl⟩
+    exact h.2.2.2.1 (by rw [hl]; rfl)
+  refine ⟨Limit.lintClean_of_checks exW ⟨by decide, by decide, by decide⟩ (by decide) (by decide) (by decide),
+    by decide, ?_, ?_, ?_, by decide, by decide, by decide⟩
+  · have Q : ∀ p ∈ exW.nodes, (p.2.ty ≠ some "bb_input" ∧ p.2.ty ≠ some "bb_output") →
+        (p.1 ≠ "" ∧ Circuit.isDigit0 p.1 = false ∧ ¬ p.1.toList.contains '.' ∧ p.1.toList.head? ≠ some '\\' ∧
+          p.1 ≠ "tie_0" ∧ p.1 ≠ "tie_1" ∧ p.1 ≠ "tie_x") := by decide
+    exact fun p hp h => pn p.1 (Q p hp h)
+  · intro p hp
+    simp only [exW, List.mem_cons, List.not_mem_nil, or_false] at hp
+    rcases hp with rfl | rfl | rfl | rfl | rfl | rfl | rfl
+    · intro h; rcases h with h | h <;> exact absurd h (by decide)
+    · intro h; rcases h with h | h <;> exact absurd h (by decide)
+    · intro h; rcases h with h | h <;> exact absurd h (by decide)
+    · intro h; rcases h with h | h <;> exact absurd h (by decide)
+    · intro _
+      exact ⟨("u", { name := "ff", ins := ["clk", "d"], outs := ["q"] }), by rw [hbb]; exact List.mem_singleton.2 rfl,
+        "clk", by decide, Or.inl ⟨rfl, by decide⟩⟩
+    · intro _
+      exact ⟨("u", { name := "ff", ins := ["clk", "d"], outs := ["q"] }), by rw [hbb]; exact List.mem_singleton.2 rfl,
+        "d", by decide, Or.inl ⟨rfl, by decide⟩⟩
+    · intro _
+      exact ⟨("u", { name := "ff", ins := ["clk", "d"], outs := ["q"] }), by rw [hbb]; exact List.mem_singleton.2 rfl,
+        "q", by decide, Or.inr ⟨rfl, by decide⟩⟩
+  · intro q hq
+    rw [hbb, List.mem_singleton] at hq
+    subst hq
+    refine ⟨by decide, by decide, pn _ (by decide), pn _ (by decide), by decide, ?_, by decide, by decide, by decide⟩
+    have Q : ∀ g ∈ ["clk", "d"] ++ ["q"], (g ≠ "" ∧ Circuit.isDigit0 g = false ∧ ¬ g.toList.contains '.' ∧
+        g.toList.head? ≠ some '\\' ∧ g ≠ "tie_0" ∧ g ≠ "tie_1" ∧ g ≠ "tie_x") := by decide
+    exact fun g hg => pn g (Q g hg)
+/-- and a blackbox-free one meeting the hypotheses of `roundtrip_behavioral` -/
+def exB : Circuit :=
+  { name := "top",
+    nodes := [("a", { ty := some "input", out := some false }), ("b", { ty := some "input", out := some false }),
+              ("k", { ty := some "1", out := some false }),
+              ("g", { ty := some "nand", out := some false }), ("h", { ty := some "xnor", out := some true }),
+              ("o", { ty := some "or", out := some true })],
+    edges := [("a", "g"), ("b", "g"), ("g", "h"), ("k", "h"), ("a", "h"), ("h", "o")] }
+example : Writable exB ∧ exB.bbs = [] ∧ (∀ p ∈ exB.nodes, p.2.ty ≠ some "x") ∧ (∀ p ∈ exB.nodes, ¬ C02.SyntheticLike p.1) := by
+  refine ⟨⟨Limit.lintClean_of_checks exB ⟨by decide, by decide, by decide⟩ (by decide) (by decide) (by decide),
+    by decide, ?_, ?_, ?_, by decide, ?_, by decide⟩, rfl, by decide, ?_⟩
+  · have pn : ∀ n : Name, (n ≠ "" ∧ Circuit.isDigit0 n = false ∧ ¬ n.toList.contains '.' ∧ n.toList.head? ≠ some '\\' ∧
+        n ≠ "tie_0" ∧ n ≠ "tie_1" ∧ n ≠ "tie_x") → PlainName n := by
+      intro n h
+      refine ⟨h.1, h.2.1, h.2.2.1, ?_, h.2.2.2.2⟩
+      rw [VR.startsWith_bs_iff]
+      rintro ⟨l, hl⟩
+      exact h.2.2.2.1 (by rw [hl]; rfl)
+    have Q : ∀ p ∈ exB.nodes, (p.1 ≠ "" ∧ Circuit.isDigit0 p.1 = false ∧ ¬ p.1.toList.contains '.' ∧
+        p.1.toList.head? ≠ some '\\' ∧ p.1 ≠ "tie_0" ∧ p.1 ≠ "tie_1" ∧ p.1 ≠ "tie_x") := by decide
+    exact fun p hp _ => pn p.1 (Q p hp)
+  · intro p hp
+    simp only [exB, List.mem_cons, List.not_mem_nil, or_false] at hp
+    rcases hp with rfl | rfl | rfl | rfl | rfl | rfl <;>
+      (intro h; rcases h with h | h <;> exact absurd h (by decide))
+  · intro q hq
+    cases hq
+  · intro q hq
+    cases hq
+  · intro p hp
+    simp only [exB, List.mem_cons, List.not_mem_nil, or_false] at hp
+    rcases hp with rfl | rfl | rfl | rfl | rfl | rfl <;>
+      exact C02.Glue.not_syntheticLike (by decide) (by decide) (by decide) (by decide)
+example : ((toWModule exB true id).toOption.map (fun wm => render wm)) =
+    some "module top (a, b, h, o);\n  input a;\n  input b;\n\n  output h;\n  output o;\n\n  wire k;\n  wire g;\n  wire h;\n  wire o;\n\n  assign k = 1'b1;\n  assign g = ~(a & b);\n  assign h = ~(g ^ k ^ a);\n  assign o = h;\nendmodule\n" := by
   decide +kernel
 
 end CG.C03
